@@ -94,6 +94,12 @@ CLAIMED["C19"] = dict(
         "(b) sonic writes (blocking and asynchronous, send buffers down to 7 bytes so would-block falls inside an item) and an independent parser reads the wire; (c) two CodecConns joined by simulated TCP; (d) a hostile peer sending conforming items followed by a declared length above the limit with no body, or junk. "
         "Oracle: exactly the written payloads, one per call, byte-identical, in order; the wire parses into exactly the written items once each; after a successful write the destination buffer is empty; an over-limit length yields an error while the source buffer has not grown toward it; no panic.",
    note="Hostile prefixes are either above the 1 GiB limit or small: a prefix just below the limit would make the codec legitimately reserve up to 1 GiB and is not generated in this sandbox. A blocking WriteNext is given a send buffer that cannot fill (it cannot wait for writability by design).")
+CLAIMED["C12"] = dict(
+   technique="deterministic simulation: seeded traffic/membership histories on a stub kernel with an interface table and Linux multicast filtering, abstract membership model as oracle",
+   text="Packet conns and multicast peers (bind forms: empty host, port 0, interface address, group address; several peers on one port) with sender actors on different simulated interfaces and addresses; datagram sizes 1..65507, buffers shorter and longer than the datagram, "
+        "loss, duplication, reordering, delay, small receive queues, EAGAIN/ENOBUFS on send; histories of Join/JoinOn/JoinSource/Leave/LeaveSource/BlockSource/UnblockSource/SetLoop/SetTTL/SetAll/SetOutboundIPv4/SetAsyncReadBuffer interleaved with traffic and pending reads, each option call failed once by injection. "
+        "Oracle: one read completion per datagram the kernel queued, with exactly its bytes, n=min(len), the sender's IP and port; one emitted datagram per write with exactly the caller's bytes and destination (observed in the kernel); the datagrams the kernel queued for each socket equal what an abstract membership model (joined, not left, source admitted, not blocked, IP_MULTICAST_ALL) predicts; a re-designated read buffer receives the datagram; after every call each getter equals the kernel's option/name.",
+   note="The delivery rule of the stub follows net/ipv4/igmp.c (ip_mc_sf_allow, ip_check_mc) for the generated histories: one membership per group per socket, membership changes only while no datagram is in flight, source operations on the default device. Unicast is not sent to a port several sockets share. Open known finding: Loop() getter.")
 
 NOT_YET = {
 }
